@@ -43,7 +43,8 @@ def rand_params(mk, rng):
         if name.startswith("E_L"):
             v = rng.uniform(1, 900)
         elif name.startswith("E"):
-            v = 10 ** rng.uniform(1, 6)
+            # (no upper bound on the modulus: soft samples mostly, sometimes a stiff substrate - glass is ~1e11 Pa)
+            v = 10 ** (rng.uniform(1, 6) if rng.random() < 0.8 else rng.uniform(6, 11.3))
         elif name == "R":
             v = 10 ** rng.uniform(-6.5, -4.5)
         elif name.startswith("nu"):
@@ -141,6 +142,10 @@ def run(ctx):
                 if "nu" in P0:
                     P0["nu"] = rng.choice([0.0, 0.5])
                 vals = [P0[n_] for n_ in names]
+            if "E_L" in names and v in (1, 3):
+                # a soft layer on a stiff substrate (the documented use: ~100 GPa glass under a ~kPa layer)
+                vals[names.index("E_S")] = float(10 ** rng.uniform(9.5, 11.3))
+                vals[names.index("E_L")] = float(rng.uniform(5, 100))
             P = dict(zip(names, vals))
             cp, b_ = P["contact_point"], P["baseline"]
             R = P.get("R", 5e-6)
